@@ -278,9 +278,20 @@ def n3(ctx, res):
                   reason="a class may not be called like an import of the generated module")
     # dedupe gives distinct names to distinct classes
     dd = ctx.func("_ParseState.dedupe")
-    ok = has("MV_c = len(self.seen[MV_n])", dd) and has("self.seen[MV_n].append(MV_o)", dd) and \
-        any(True for _ in find("if MV_c:\n    MV_o.__name__ = MV_n + f'_{MV_c}'", dd))
-    res.check(ok, dd, "repeated titles get a numeric suffix", reason="distinct classes with one title get distinct names")
+    from .norm import view
+    o = dd.params[1].name
+    vb = view(dd, ctx.prog).body
+    cnt = f"len(self.seen[{o}.__name__])"
+    renames = find(f"{o}.__name__ = {o}.__name__ + f'_{{{cnt}}}'", vb)
+    okd = None
+    if renames:
+        gs = flat_guards(Parents(vb), renames[0][0])
+        okd = any(norm(strip_not(t, pol)[0]) == cnt and strip_not(t, pol)[1] for t, pol in gs) or \
+            any((cmp_atom(t, pol) or ("",) * 3)[:3] in ((cnt, ">", "0"), (cnt, "!=", "0"), (cnt, ">=", "1")) for t, pol in gs)
+        okd = okd and has(f"self.seen[{o}.__name__].append({o})", vb)
+    elif any(isinstance(n, ast.Assign) and any(norm(t) == f"{o}.__name__" for t in n.targets) for n in walk_own(vb)):
+        okd = False
+    res.judge(okd, dd, "repeated titles get a numeric suffix", reason="distinct classes with one title get distinct names")
     tf = ctx.func("_title_format")
     res.check(has("re.split('[^a-zA-Z0-9]', MV_n)", tf), tf, "re.split('[^a-zA-Z0-9]', name)",
               reason="formatted titles contain ASCII letters and digits only (so a '_<n>' suffix cannot collide with a formatted title)")
